@@ -520,7 +520,8 @@ fn check_property(p: &Prop, tier: &str, runs_override: Option<u64>, only_scenari
             if !(is_bad(&rec.verdict) || rec.verdict == "livelock") || sig_of(&rec.msg) != sig_of(&r.msg) {
                 replay_info = format!("NOT REPRODUCED on re-run (got {}: {})", rec.verdict, rec.msg);
             } else if r.verdict != "livelock" {
-                let (b, a, tries) = minimise(&path, &sig_of(&r.msg), 300);
+                let budget = std::env::var("VERIF_MIN_BUDGET").ok().and_then(|v| v.parse().ok()).unwrap_or(300);
+                let (b, a, tries) = minimise(&path, &sig_of(&r.msg), budget);
                 // re-record the minimised execution so that hash and trace tail match it
                 let tmp = format!("{}.min", path);
                 let rr = run_replay_rec(&path, Some(&tmp));
